@@ -173,6 +173,7 @@ structure Frame (g g' : G) : Prop where
   retryQ : g'.retryQ = g.retryQ
   emitted : g'.emitted = g.emitted
   committed : g'.committed = g.committed
+  retryPc : g'.retryPc = g.retryPc
 
 /-- the step applied a batch: one log entry, its slot filled in the same step, the request returns -/
 structure AppliedEff (g : G) (c : Client) (g' : G) (x : WLog) (s : WEvent) (d : Done) : Prop where
@@ -220,17 +221,17 @@ structure Mid (g : G) (c : Client) (g1 : G) (sl : List WEvent) : Prop where
   dealt : g1.dealt = g.dealt ∨ (g1.dealt = g.dealt + 1 ∧ c.pc.held = none)
 
 theorem Mid.refl (g : G) (c : Client) : Mid g c g [] :=
-  ⟨⟨rfl, rfl, rfl, rfl⟩, rfl, rfl, by simp, rfl, rfl, .inl rfl⟩
+  ⟨⟨rfl, rfl, rfl, rfl, rfl⟩, rfl, rfl, by simp, rfl, rfl, .inl rfl⟩
 
 theorem Mid.deal (g : G) (c : Client) (h : c.pc.held = none) : Mid g c { g with dealt := g.dealt + 1 } [] :=
-  ⟨⟨rfl, rfl, rfl, rfl⟩, rfl, rfl, by simp, rfl, rfl, .inr ⟨rfl, h⟩⟩
+  ⟨⟨rfl, rfl, rfl, rfl, rfl⟩, rfl, rfl, by simp, rfl, rfl, .inr ⟨rfl, h⟩⟩
 
 theorem Mid.notify {g : G} {c : Client} {g1 : G} (h : Mid g c g1 []) (s : WEvent) (hs : s.rev ≠ 0) :
     Mid g c (g1.notify s) [s] := by
-  obtain ⟨⟨a1, a2, a3, a4⟩, b, c', d, e, f', g'⟩ := h
+  obtain ⟨⟨a1, a2, a3, a4, a5⟩, b, c', d, e, f', g'⟩ := h
   have hn : g1.notify s = { g1 with slots := g1.slots ++ [s] } := by simp [G.notify, hs]
   rw [hn]
-  exact ⟨⟨a1, a2, a3, a4⟩, b, c', by simpa using d, e, f', g'⟩
+  exact ⟨⟨a1, a2, a3, a4, a5⟩, b, c', by simpa using d, e, f', g'⟩
 
 theorem mem_setClient {g : G} {c' x : Client} (h : x ∈ (g.setClient c').clients) :
     (x ∈ g.clients ∧ x.id ≠ c'.id) ∨ x = c' := by
@@ -244,8 +245,8 @@ theorem Mid.finish {g : G} {c : Client} {g1 : G} {sl : List WEvent} (h : Mid g c
     (hsl : ∀ s ∈ sl, s.valid = false ∧ s.key = c.kind.key ∧ RevI g c s.rev)
     {res : WriteRes} (hres : ∀ rv, res ≠ .ok rv) {rev : Nat} (hrev : RevH g c rev) :
     IdleEff g c (g1.finish c res rev) := by
-  obtain ⟨⟨a1, a2, a3, a4⟩, b, c', d, e, f', g'⟩ := h
-  refine ⟨⟨a1, a2, a3, a4⟩, b, c', ⟨sl, d, hl, hsl⟩, .inr ⟨_, by simp only [G.finish, e]; rfl, rfl, hres, hrev⟩, ?_, g'⟩
+  obtain ⟨⟨a1, a2, a3, a4, a5⟩, b, c', d, e, f', g'⟩ := h
+  refine ⟨⟨a1, a2, a3, a4, a5⟩, b, c', ⟨sl, d, hl, hsl⟩, .inr ⟨_, by simp only [G.finish, e]; rfl, rfl, hres, hrev⟩, ?_, g'⟩
   intro x hx
   simp only [G.finish_clients, mem_others, f'] at hx
   exact .inl hx
@@ -255,8 +256,8 @@ theorem Mid.set {g : G} {c : Client} {g1 : G} {sl : List WEvent} (h : Mid g c g1
     {c' : Client} (hid : c'.id = c.id) (hkd : c'.kind = c.kind) (hck : CK c')
     (hh : ∀ r, c'.pc.held = some r → RevH g c r) :
     IdleEff g c (g1.setClient c') := by
-  obtain ⟨⟨a1, a2, a3, a4⟩, b, c'', d, e, f', g'⟩ := h
-  refine ⟨⟨a1, a2, a3, a4⟩, b, c'', ⟨sl, d, hl, hsl⟩, .inl e, ?_, g'⟩
+  obtain ⟨⟨a1, a2, a3, a4, a5⟩, b, c'', d, e, f', g'⟩ := h
+  refine ⟨⟨a1, a2, a3, a4, a5⟩, b, c'', ⟨sl, d, hl, hsl⟩, .inl e, ?_, g'⟩
   intro x hx
   rcases mem_setClient hx with ⟨h1, h2⟩ | rfl
   · rw [f'] at h1; rw [hid] at h2; exact .inl ⟨h1, h2⟩
@@ -286,7 +287,7 @@ theorem AppliedEff.mk' {g : G} {c : Client} {r : CommitRes} {f : Fault} {st : St
   all_goals first
     | assumption
     | rfl
-    | exact ⟨rfl, rfl, rfl, rfl⟩
+    | exact ⟨rfl, rfl, rfl, rfl, rfl⟩
 
 theorem CK.setPc {c : Client} (h : CK c) {pc : Pc} (hp : pc.createPath = true → c.kind.wval = some c.kind.kv.2) :
     CK { c with pc := pc } := ⟨hp⟩
@@ -565,49 +566,12 @@ theorem stepClient_eff {g : G} {c : Client} (f : Fault) (hck : CK c) (hpos : ∀
     split
     · exact .inr ((Mid.refl g c).finish (by simp) (by simp) (by simp) hh)
     · exact .inr ((Mid.refl g c).finish (by simp) (by simp) (by simp) hh)
-  · refine .inr ⟨⟨rfl, rfl, rfl, rfl⟩, rfl, rfl, ⟨[], by simp, by simp, by simp⟩, .inl rfl, fun c' hc' => ?_, .inl rfl⟩
+  · refine .inr ⟨⟨rfl, rfl, rfl, rfl, rfl⟩, rfl, rfl, ⟨[], by simp, by simp, by simp⟩, .inl rfl, fun c' hc' => ?_, .inl rfl⟩
     by_cases e : c'.id = c.id
     · have := hid c' hc' e
       subst this
       exact .inr ⟨rfl, rfl, hck, fun r hr => .inl hr⟩
     · exact .inl ⟨hc', e⟩
-
-/-! ### case analysis of a retry step, keeping what the read returned -/
-
-theorem stepRetry_cases' {P : G → Prop} (g : G) (f : Fault)
-    (hNop : g.retryQ = [] → P g)
-    (hPop : ∀ w rest, g.retryQ = w :: rest →
-      (getInternal g.cfg g.store w.key 0 = none ∨
-        ∃ val m, getInternal g.cfg g.store w.key 0 = some (val, m) ∧ (val = [] ∨ m ≠ w.rev)) →
-      P { g with retryQ := rest })
-    (hWrite : ∀ w rest val r st, g.retryQ = w :: rest → getInternal g.cfg g.store w.key 0 = some (val, w.rev) →
-      val ≠ [] →
-      doCommit g.cfg g.store
-        [BOp.cas (idxKey w.key) (be8 (g.dealt + 1) ++ if isTomb val then [0] else []) (be8 w.rev ++ if isTomb val then [0] else []),
-         BOp.put (encode w.key (g.dealt + 1)) val] f = (r, st) →
-      P ((afterCommit { g with dealt := g.dealt + 1, retryQ := if r == CommitRes.ok || r.isCas then rest else w :: rest }
-            r st f w.key (g.dealt + 1) (if isTomb val then none else some val) (.rev w.rev)).notify
-          { w with rev := g.dealt + 1, valid := r == .ok, uncertain := r == .uncertain })) :
-    P (stepRetry g f) := by
-  unfold stepRetry
-  split
-  · exact hNop ‹_›
-  · split
-    · exact hPop _ _ ‹_› (.inl ‹_›)
-    · split
-      · rename_i w rest hq _ val modRev hget hc
-        refine hPop _ _ hq (.inr ⟨val, modRev, hget, ?_⟩)
-        simp only [Bool.or_eq_true, beq_iff_eq, bne_iff_ne, ne_eq, List.length_eq_zero_iff] at hc
-        exact hc
-      · rename_i w rest hq _ val modRev hget hc
-        simp only [Bool.or_eq_true, beq_iff_eq, bne_iff_ne, ne_eq, not_or, Decidable.not_not,
-          List.length_eq_zero_iff] at hc
-        obtain ⟨hne, rfl⟩ := hc
-        simp only []
-        generalize hdc : doCommit g.cfg g.store _ f = p
-        obtain ⟨r, st⟩ := p
-        have hL := hWrite w rest _ r st hq hget hne hdc
-        simpa only [afterCommit] using hL
 
 /-! ### acknowledged ⇒ applied, definite failure ⇒ not applied -/
 
@@ -735,15 +699,23 @@ theorem AckInv.stepSeq {g : G} (h : AckInv g) : AckInv (stepSeq g) := by
   · exact h
   · exact ⟨h.ck, fun w hw => Nat.le_trans (h.wle w hw) (Nat.le_max_left _ _), h.held, h.ok, h.cf⟩
 
-theorem AckInv.stepRetry {g : G} (hf : FInv g.view) (h : AckInv g) (f : Fault) : AckInv (stepRetry g f) := by
+theorem AckInv.stepRetryRead {g : G} (h : AckInv g) : AckInv (stepRetryRead g) := by
+  apply stepRetryRead_cases
+  · intros; exact h
+  · intros; exact h
+  · intros; exact ⟨h.ck, h.wle, h.held, h.ok, h.cf⟩
+  · intros
+    exact ⟨h.ck, fun w hw => Nat.le_trans (h.wle w hw) (Nat.le_succ _), h.held, h.ok, h.cf⟩
+
+theorem AckInv.stepRetryCommit {g : G} (hf : FInv g.view) (h : AckInv g) (f : Fault) : AckInv (stepRetryCommit g f) := by
   obtain ⟨hs, hd⟩ := hf
-  apply stepRetry_cases'
+  apply stepRetryCommit_cases
   · intro _; exact h
-  · intro w rest _ _; exact ⟨h.ck, h.wle, h.held, h.ok, h.cf⟩
-  · intro w rest val r st _ _ _ _
-    have hsub : ∀ x ∈ (afterCommit { g with dealt := g.dealt + 1, retryQ := if r == CommitRes.ok || r.isCas then rest else w :: rest }
-            r st f w.key (g.dealt + 1) (if isTomb val then none else some val) (.rev w.rev)).wlog,
-        x ∈ g.wlog ∨ x.rev = g.dealt + 1 := by
+  · intro p r st hp _
+    have hrpc : g.view.rpc = some p.rev := by simp [G.view, hp]
+    have hsub : ∀ x ∈ (afterCommit { g with retryPc := none, retryQ := if r == CommitRes.ok || r.isCas then g.retryQ.drop 1 else g.retryQ }
+            r st f p.w.key p.rev (if isTomb p.val then none else some p.val) (.rev p.w.rev)).wlog,
+        x ∈ g.wlog ∨ x.rev = p.rev := by
       intro x hx
       unfold afterCommit at hx
       split at hx
@@ -760,16 +732,17 @@ theorem AckInv.stepRetry {g : G} (hf : FInv g.view) (h : AckInv g) (f : Fault) :
       simp only [G.notify_wlog] at hx
       simp only [G.notify_dealt, afterCommit_dealt]
       rcases hsub x hx with hx | hx
-      · have := h.wle x hx; omega
-      · omega
-    · intro c hc r hr x hx
+      · exact h.wle x hx
+      · have := (hs.rpcR _ hrpc).2
+        have : p.rev ≤ g.dealt := this
+        omega
+    · intro c hc r' hr x hx
       simp only [G.notify_clients, afterCommit_clients] at hc
       simp only [G.notify_wlog] at hx
       rcases hsub x hx with hx | hx
-      · exact h.held c hc r hr x hx
-      · have := (hs.heldR c hc r hr).2
-        have : r ≤ g.dealt := this
-        omega
+      · exact h.held c hc r' hr x hx
+      · intro e
+        exact hs.rpcHeld c hc r' hr (by rw [hrpc, ← e, hx])
     · intro d hd' rev hres
       simp only [G.notify_done] at hd'
       have hd'' : d ∈ g.done := by
@@ -787,9 +760,8 @@ theorem AckInv.stepRetry {g : G} (hf : FInv g.view) (h : AckInv g) (f : Fault) :
       simp only [G.notify_wlog] at hx
       rcases hsub x hx with hx | hx
       · exact h.cf d hd'' hdef x hx
-      · have h1 := hd.dR d hd''
-        have : d.endDealt ≤ g.dealt := h1.2.2
-        omega
+      · intro e
+        exact hd.dRpc d hd'' (by rw [hrpc, ← e, hx])
 
 theorem AckInv.act {g : G} (hf : FInv g.view) (h : AckInv g) (a : Action) : AckInv (act g a) := by
   cases a with
@@ -819,7 +791,9 @@ theorem AckInv.act {g : G} (hf : FInv g.view) (h : AckInv g) (a : Action) : AckI
     · rename_i c hfind
       exact h.stepClient hf (mem_client hfind).1 f
   | seq => exact h.stepSeq
-  | retry f => exact h.stepRetry hf f
+  | retry f => exact h.stepRetryRead.stepRetryCommit (stepRetryRead_P FInv.closed hf) f
+  | retryRead => exact h.stepRetryRead
+  | retryCommit f => exact h.stepRetryCommit hf f
 
 /-- induction over reachable states, with reachability of the predecessor available -/
 theorem Reachable.induct {g0 : G} {P : G → Prop} (h0 : P g0)
@@ -971,6 +945,12 @@ structure Cv (g : G) : Prop where
     ∃ x ∈ g.wlog, x.rev = e.rev ∧ x.key = e.key ∧ (e.verb == .delete) = x.val.isNone
   emsorted : (g.emitted.map (·.rev)).Pairwise (· < ·)
   cover : ∀ k w, lastW g.wlog k = some w → Covered g.emitted g.slots g.retryQ w
+  /-- the retry loop between its read and its commit is repairing the head of its queue ... -/
+  pq : ∀ p, g.retryPc = some p → ∃ rest, g.retryQ = p.w :: rest
+  /-- ... the value it read is not empty ... -/
+  pne : ∀ p, g.retryPc = some p → p.val ≠ []
+  /-- ... and is a deletion marker iff the write it repairs was a deletion -/
+  pv : ∀ p, g.retryPc = some p → ∀ x ∈ g.wlog, x.rev = p.w.rev → isTomb p.val = x.val.isNone
 
 /-- what is known of every reachable state (from the empty store) -/
 structure Ctx (g0 g : G) : Prop where
@@ -987,11 +967,11 @@ theorem G0OK.of_empty {g0 : G} (hs : g0.store = []) : G0OK g0 := by
 theorem Ctx.reachable {g0 g : G} (h0 : C02.Init g0) (hs : g0.store = []) (hr : Reachable g0 g) : Ctx g0 g := by
   refine ⟨C02.finv h0 hr, ?_, AckInv.reachable h0 hr, hs⟩
   obtain ⟨sched, rfl⟩ := hr
-  exact (SysStore.SInv.init h0 (G0OK.of_empty hs)).run (G0OK.of_empty hs) sched
+  exact (SysStore.SInv.init h0 (G0OK.of_empty hs)).run (G0OK.of_empty hs) (vinv_init h0) sched
 
 theorem Cv.init {g : G} (h : C02.Init g) (hs : g.store = []) (hem : g.emitted = []) : Cv g := by
-  obtain ⟨⟨_, hsl, hcl, hq⟩, _, hw, _⟩ := h
-  constructor <;> simp [hcl, hsl, hq, hw, hs, hem, Store.Sorted, StoreKeys, lastW]
+  obtain ⟨⟨_, hsl, hcl, hq, hp⟩, _, hw, _⟩ := h
+  constructor <;> simp [hcl, hsl, hq, hp, hw, hs, hem, Store.Sorted, StoreKeys, lastW]
 
 theorem Cv.stepSeq {g : G} (h : Cv g) : Cv (stepSeq g) := by
   unfold KB.stepSeq
@@ -1092,6 +1072,14 @@ theorem Cv.stepSeq {g : G} (h : Cv g) : Cv (stepSeq g) := by
             exact ⟨s', by simp [hv', hu], hr'⟩
         · exact .inr (.inl ⟨s', (hfil s').mpr ⟨hs', e⟩, hr', hfl⟩)
       · exact .inr (.inr ⟨q, hsubQ q hq, hh⟩)
+    · intro p hp
+      obtain ⟨rest, hr⟩ := h.pq p hp
+      show ∃ rest', (if (!s.valid && s.uncertain) = true then g.retryQ ++ [s] else g.retryQ) = p.w :: rest'
+      split
+      · exact ⟨rest ++ [s], by rw [hr]; rfl⟩
+      · exact ⟨rest, hr⟩
+    · exact h.pne
+    · exact h.pv
 
 theorem lastW_mem_ne {l : List WLog} {x : WLog} {k : Bytes} {w : WLog} (h : lastW (l ++ [x]) k = some w)
     (hne : x.key ≠ k) : lastW l k = some w := by
@@ -1201,6 +1189,17 @@ theorem Cv.stepClient {g0 g : G} (ctx : Ctx g0 g) (h : Cv g) {c : Client} (hc : 
       · simp only [Option.some.injEq] at hl; subst hl
         exact .inr (.inl ⟨s, by simp, e.srev, e.sflag⟩)
       · exact (h.cover k w hl).mono (fun _ h => h) (fun _ h => List.mem_append_left _ h) (fun _ h => h)
+    · rw [e.frame.retryPc, e.frame.retryQ]; exact h.pq
+    · rw [e.frame.retryPc]; exact h.pne
+    · intro p hp y hy hyr
+      rw [e.frame.retryPc] at hp
+      rw [e.wlog] at hy
+      rcases List.mem_append.mp hy with hy | hy
+      · exact h.pv p hp y hy hyr
+      · simp only [List.mem_singleton] at hy; subst hy
+        obtain ⟨rest, hr⟩ := h.pq p hp
+        have := h.qle p.w (by rw [hr]; exact List.mem_cons_self ..)
+        omega
   · -- nothing applied
     obtain ⟨sl, hsl, hlen, hprop⟩ := e.slots
     have hcm : g.committed = (KB.stepClient g c f).committed := e.frame.committed.symm
@@ -1247,6 +1246,9 @@ theorem Cv.stepClient {g0 g : G} (ctx : Ctx g0 g) (h : Cv g) {c : Client} (hc : 
       rw [e.frame.emitted, hsl, e.frame.retryQ]
       rw [e.wlog] at hl
       exact (h.cover k w hl).mono (fun _ h => h) (fun _ h => List.mem_append_left _ h) (fun _ h => h)
+    · rw [e.frame.retryPc, e.frame.retryQ]; exact h.pq
+    · rw [e.frame.retryPc]; exact h.pne
+    · rw [e.frame.retryPc, e.wlog]; exact h.pv
 
 theorem tombstone_ne_nil : tombstone ≠ [] := by decide
 
@@ -1288,31 +1290,42 @@ theorem doCommit_ok_not_conflict {c : Cfg} {st st' : Store} {ops : List BOp} {f 
   cases f <;> simp
 
 /-- projections of the state after the retry loop's rewrite -/
-theorem retry_write_proj (g : G) (q : WEvent) (Q : List WEvent) (r : CommitRes) (st : Store) (f : Fault) (val : Option Bytes) :
-    let x : WLog := ⟨q.key, g.dealt + 1, val, .rev q.rev⟩
-    let s : WEvent := { q with rev := g.dealt + 1, valid := r == .ok, uncertain := r == .uncertain }
-    let g' := (afterCommit { g with dealt := g.dealt + 1, retryQ := Q } r st f q.key (g.dealt + 1) val (.rev q.rev)).notify s
+theorem retry_write_proj (g : G) (q : WEvent) (rev : Nat) (Q : List WEvent) (r : CommitRes) (st : Store) (f : Fault)
+    (val : Option Bytes) (h0 : rev ≠ 0) :
+    let x : WLog := ⟨q.key, rev, val, .rev q.rev⟩
+    let s : WEvent := { q with rev := rev, valid := r == .ok, uncertain := r == .uncertain }
+    let g' := (afterCommit { g with retryPc := none, retryQ := Q } r st f q.key rev val (.rev q.rev)).notify s
     g'.slots = g.slots ++ [s] ∧ g'.retryQ = Q ∧ g'.emitted = g.emitted ∧ g'.committed = g.committed ∧
-      g'.clients = g.clients ∧ g'.dealt = g.dealt + 1 ∧ g'.store = st ∧ g'.cfg = g.cfg ∧
+      g'.clients = g.clients ∧ g'.dealt = g.dealt ∧ g'.store = st ∧ g'.cfg = g.cfg ∧ g'.retryPc = none ∧
       g'.wlog = (if applied r f = true then g.wlog ++ [x] else g.wlog) := by
-  simp only [G.notify, afterCommit, Nat.succ_ne_zero, beq_iff_eq, if_false]
+  simp only [G.notify, afterCommit, h0, beq_iff_eq, if_false]
   split <;> simp [G.logWrite]
 
-
-theorem Cv.stepRetry {g0 g : G} (ctx : Ctx g0 g) (h : Cv g) (f : Fault)
-    (hb' : (stepRetry g f).dealt < 2 ^ 64) : Cv (stepRetry g f) := by
-  obtain ⟨hs, hd⟩ := ctx.finv
-  have hA := ctx.ack
-  have hcore := ctx.sinv.core
+/-- The retry loop's read: the head is dropped only if it is not the last write of its key; otherwise the
+loop remembers what it read. -/
+theorem Cv.stepRetryRead {g0 g : G} (ctx : Ctx g0 g) (h : Cv g)
+    (hb' : (stepRetryRead g).dealt < 2 ^ 64) : Cv (stepRetryRead g) := by
   revert hb'
-  apply stepRetry_cases' (P := fun g' => g'.dealt < 2 ^ 64 → Cv g')
-  · intro _ _; exact h
+  apply stepRetryRead_cases (P := fun g' => g'.dealt < 2 ^ 64 → Cv g')
+  · intro _ _ _; exact h
+  · intro _ _ _; exact h
   · -- the head is dropped: it is not the last write of its key
-    intro q rest hq hpop hb
+    intro q rest hn hq hpop hb
     have hsub : ∀ x ∈ rest, x ∈ g.retryQ := fun x hx => by rw [hq]; exact List.mem_cons_of_mem _ hx
     have hqm : q ∈ g.retryQ := by rw [hq]; exact List.mem_cons_self ..
     refine ⟨h.kok, h.salph, fun x hx => h.qalph x (hsub x hx), h.wval, h.sorted, h.skeys, h.sv,
-      fun x hx => h.qv x (hsub x hx), h.svalid, h.suniq, fun x hx => h.qle x (hsub x hx), h.em, h.emsorted, ?_⟩
+      fun x hx => h.qv x (hsub x hx), h.svalid, h.suniq, fun x hx => h.qle x (hsub x hx), h.em, h.emsorted, ?_,
+      ?_, ?_, ?_⟩
+    rotate_left
+    · intro p hp
+      have hp' : g.retryPc = some p := hp
+      rw [hn] at hp'; cases hp'
+    · intro p hp
+      have hp' : g.retryPc = some p := hp
+      rw [hn] at hp'; cases hp'
+    · intro p hp
+      have hp' : g.retryPc = some p := hp
+      rw [hn] at hp'; cases hp'
     intro k w hl
     show Covered g.emitted g.slots rest w
     rcases h.cover k w hl with hc | hc | ⟨q', hq', hr'⟩
@@ -1334,41 +1347,102 @@ theorem Cv.stepRetry {g0 g : G} (ctx : Ctx g0 g) (h : Cv g) (f : Fault)
           · exact hne (hget.1 ▸ hp')
           · exact hp' (hget.2.trans hr'.symm)
       · exact .inr (.inr ⟨q', hq', hr'⟩)
-  · -- the rewrite
-    intro q rest val r st hq hget hne hdc hb'
-    have hqm : q ∈ g.retryQ := by rw [hq]; exact List.mem_cons_self ..
-    obtain ⟨pS, pQ, pE, pC, pCl, pD, pSt, pCfg, pW⟩ := retry_write_proj g q
-      (if r == CommitRes.ok || r.isCas then rest else q :: rest) r st f (if isTomb val then none else some val)
-    generalize hg' : G.notify _ _ = g' at pS pQ pE pC pCl pD pSt pCfg pW hb' ⊢
-    have hb : g.dealt < 2 ^ 64 := by rw [pD] at hb'; omega
-    have hQsub : ∀ x ∈ (if r == CommitRes.ok || r.isCas then rest else q :: rest), x ∈ g.retryQ := by
+  · -- the head is still the newest version of its key: a revision is dealt, nothing else moves
+    intro w rest val hn hq hget hne hb
+    have hb0 : g.dealt < 2 ^ 64 := by
+      have : g.dealt + 1 < 2 ^ 64 := hb
+      omega
+    have hqm : w ∈ g.retryQ := by rw [hq]; exact List.mem_cons_self ..
+    refine ⟨h.kok, h.salph, h.qalph, h.wval, h.sorted, h.skeys, h.sv, h.qv, h.svalid, h.suniq, h.qle, h.em,
+      h.emsorted, h.cover, ?_, ?_, ?_⟩
+    · intro p hp
+      have hp' : some ({ w := w, rev := g.dealt + 1, val := val } : RetryPc) = some p := hp
+      simp only [Option.some.injEq] at hp'
+      subst hp'
+      exact ⟨rest, hq⟩
+    · intro p hp
+      have hp' : some ({ w := w, rev := g.dealt + 1, val := val } : RetryPc) = some p := hp
+      simp only [Option.some.injEq] at hp'
+      subst hp'
+      exact hne
+    · intro p hp x hx hxr
+      have hp' : some ({ w := w, rev := g.dealt + 1, val := val } : RetryPc) = some p := hp
+      simp only [Option.some.injEq] at hp'
+      subst hp'
+      have hx' : x ∈ g.wlog := hx
+      have hxr' : x.rev = w.rev := hxr
+      obtain ⟨hk, hvb⟩ := h.qv w hqm x hx' hxr'
+      cases hl : lastW g.wlog w.key with
+      | none =>
+        exfalso
+        have hnil : g.wlog.filter (fun y => y.key == w.key) = [] := List.getLast?_eq_none_iff.mp hl
+        have : x ∈ g.wlog.filter (fun y => y.key == w.key) := List.mem_filter.mpr ⟨hx', by simp [hk]⟩
+        rw [hnil] at this; cases this
+      | some x' =>
+        obtain ⟨hget', _⟩ := read_last ctx h hb0 (h.qalph w hqm) hl
+        rw [hget] at hget'
+        simp only [Option.some.injEq, Prod.mk.injEq] at hget'
+        have ht := (isTomb_getD (h.wval x' (lastW_some hl).1)).1
+        obtain ⟨_, hvb'⟩ := h.qv w hqm x' (lastW_some hl).1 hget'.2.symm
+        show isTomb val = x.val.isNone
+        rw [hget'.1, ht]
+        unfold VerbOK at hvb hvb'
+        rw [← hvb, ← hvb']
+
+/-- The retry loop's commit. Applied: the rewrite is the key's last write, covered by its own slot. Not
+applied and the head popped (its compare-and-swap failed): the head was not the last write of its key any more. -/
+theorem Cv.stepRetryCommit {g0 g : G} (ctx : Ctx g0 g) (h : Cv g) (f : Fault)
+    (hb : g.dealt < 2 ^ 64) : Cv (stepRetryCommit g f) := by
+  obtain ⟨hs, hd⟩ := ctx.finv
+  have hA := ctx.ack
+  have hcore := ctx.sinv.core
+  apply stepRetryCommit_cases
+  · intro _; exact h
+  · intro p r st hp hdc
+    obtain ⟨rest, hq⟩ := h.pq p hp
+    have hrpc : g.view.rpc = some p.rev := by simp [G.view, hp]
+    obtain ⟨hpc, hpd⟩ := hs.rpcR _ hrpc
+    have hpc : g.committed < p.rev := hpc
+    have hpd : p.rev ≤ g.dealt := hpd
+    have hp0 : p.rev ≠ 0 := by omega
+    obtain ⟨hfr, hlt⟩ := ctx.sinv.rp p hp
+    have hne := h.pne p hp
+    have hQ : (if (r == CommitRes.ok || r.isCas) = true then List.drop 1 g.retryQ else g.retryQ) =
+        (if (r == CommitRes.ok || r.isCas) = true then rest else p.w :: rest) := by rw [hq]; rfl
+    rw [hQ]
+    have hqm : p.w ∈ g.retryQ := by rw [hq]; exact List.mem_cons_self ..
+    obtain ⟨pS, pQ, pE, pC, pCl, pD, pSt, pCfg, pP, pW⟩ := retry_write_proj g p.w p.rev
+      (if r == CommitRes.ok || r.isCas then rest else p.w :: rest) r st f (if isTomb p.val then none else some p.val) hp0
+    generalize hg' : G.notify _ _ = g' at pS pQ pE pC pCl pD pSt pCfg pP pW ⊢
+    have hQsub : ∀ x ∈ (if r == CommitRes.ok || r.isCas then rest else p.w :: rest), x ∈ g.retryQ := by
       intro x hx
       rw [hq]
       split at hx
       · exact List.mem_cons_of_mem _ hx
       · exact hx
-    have hqa := h.qalph q hqm
-    have hqc : q.rev ≤ g.dealt := Nat.le_trans (h.qle q hqm) hs.le
-    have hslot : ∀ s ∈ g.slots, s.rev ≤ g.dealt := fun s hsm => (hs.slotR s hsm).2
-    have hsuniq : ∀ s1 ∈ g.slots ++ [{ q with rev := g.dealt + 1, valid := r == .ok, uncertain := r == .uncertain }],
-        ∀ s2 ∈ g.slots ++ [{ q with rev := g.dealt + 1, valid := r == .ok, uncertain := r == .uncertain }],
+    have hqa := h.qalph p.w hqm
+    have hslot : ∀ s ∈ g.slots, s.rev ≠ p.rev := fun s hsm e => hs.rpcSlot s hsm (by rw [hrpc, e])
+    have hwl : ∀ y ∈ g.wlog, y.rev ≠ p.rev := hfr.2.2
+    have hppc : ∀ p', g'.retryPc = some p' → False := fun p' hp' => by rw [pP] at hp'; cases hp'
+    have hsuniq : ∀ s1 ∈ g.slots ++ [{ p.w with rev := p.rev, valid := r == .ok, uncertain := r == .uncertain }],
+        ∀ s2 ∈ g.slots ++ [{ p.w with rev := p.rev, valid := r == .ok, uncertain := r == .uncertain }],
         s1.rev = s2.rev → s1 = s2 := by
       intro s1 h1 s2 h2 e12
       rcases List.mem_append.mp h1 with h1' | h1' <;> rcases List.mem_append.mp h2 with h2' | h2'
       · exact h.suniq s1 h1' s2 h2' e12
       · simp only [List.mem_singleton] at h2'
-        have := hslot s1 h1'; rw [h2'] at e12; simp only at e12; omega
+        have := hslot s1 h1'; rw [h2'] at e12; exact absurd e12 this
       · simp only [List.mem_singleton] at h1'
-        have := hslot s2 h2'; rw [h1'] at e12; simp only at e12; omega
+        have := hslot s2 h2'; rw [h1'] at e12; exact absurd e12.symm this
       · simp only [List.mem_singleton] at h1' h2'; rw [h1', h2']
     rcases doCommit_cas_cases hdc with ⟨ha, hidx, hst⟩ | ⟨ha, hst⟩
     · -- applied: the key's last write is now the rewrite, covered by its own slot
       rw [if_pos ha] at pW
       -- the CAS succeeded, so the head was the last write of its key
-      obtain ⟨w, hl, hwr, hfl⟩ : ∃ w, lastW g.wlog q.key = some w ∧ w.rev = q.rev ∧
-          isTomb val = w.val.isNone := by
-        have hi := hcore.idx hb q.key
-        cases hl : lastW g.wlog q.key with
+      obtain ⟨w, hl, hwr, hfl⟩ : ∃ w, lastW g.wlog p.w.key = some w ∧ w.rev = p.w.rev ∧
+          isTomb p.val = w.val.isNone := by
+        have hi := hcore.idx hb p.w.key
+        cases hl : lastW g.wlog p.w.key with
         | none =>
           rw [hl] at hi; simp only [IdxOK] at hi
           rw [hidx, ctx.st0] at hi; simp [Store.get] at hi
@@ -1378,13 +1452,13 @@ theorem Cv.stepRetry {g0 g : G} (ctx : Ctx g0 g) (h : Cv g) (f : Fault)
           have := hi.1; rw [hidx] at this
           obtain ⟨e1, e2⟩ := be8_append_inj (by omega) (by omega) (Option.some.inj this)
           exact ⟨w, rfl, e1.symm, flag_eq_iff e2⟩
-      have hverb : VerbOK q w := (h.qv q hqm w (lastW_some hl).1 hwr).2
-      have hxv : (q.verb == Verb.delete) = (if isTomb val = true then none else some val : Option Bytes).isNone := by
+      have hverb : VerbOK p.w w := (h.qv p.w hqm w (lastW_some hl).1 hwr).2
+      have hxv : (p.w.verb == Verb.delete) = (if isTomb p.val = true then none else some p.val : Option Bytes).isNone := by
         rw [hverb, ← hfl]
-        cases isTomb val <;> rfl
+        cases isTomb p.val <;> rfl
       have hrr := applied_cases ha
-      have hst' : st = wstore g.store q.key (g.dealt + 1)
-          (be8 (g.dealt + 1) ++ if isTomb val then [0] else []) val := by rw [hst]; rfl
+      have hst' : st = wstore g.store p.w.key p.rev
+          (be8 p.rev ++ if isTomb p.val then [0] else []) p.val := by rw [hst]; rfl
       constructor
       · rw [pCl]; exact h.kok
       · intro s hsm
@@ -1406,7 +1480,7 @@ theorem Cv.stepRetry {g0 g : G} (ctx : Ctx g0 g) (h : Cv g) (f : Fault)
             exact ⟨hne, by simpa [isTomb] using ht⟩
       · rw [pSt, hst']; exact sorted_wstore h.sorted ..
       · rw [pSt, pW, hst']
-        exact h.skeys.write ⟨q.key, g.dealt + 1, _, _⟩ _ _ hqa (by show g.dealt + 1 < 2 ^ 64; omega)
+        exact h.skeys.write ⟨p.w.key, p.rev, _, _⟩ _ _ hqa (by show p.rev < 2 ^ 64; omega)
       · intro s hsm y hy hyr
         rw [pS] at hsm
         rw [pW] at hy
@@ -1414,10 +1488,10 @@ theorem Cv.stepRetry {g0 g : G} (ctx : Ctx g0 g) (h : Cv g) (f : Fault)
         · rcases List.mem_append.mp hy with hy | hy
           · exact h.sv s hsm y hy hyr
           · simp only [List.mem_singleton] at hy; subst hy
-            have := hslot s hsm; simp only at hyr; omega
+            exact absurd hyr.symm (hslot s hsm)
         · simp only [List.mem_singleton] at hsm; subst hsm
           rcases List.mem_append.mp hy with hy | hy
-          · have := hA.wle y hy; simp only at hyr; omega
+          · exact absurd hyr (hwl y hy)
           · simp only [List.mem_singleton] at hy; subst hy
             exact ⟨rfl, hxv⟩
       · intro q' hq' y hy hyr
@@ -1427,8 +1501,7 @@ theorem Cv.stepRetry {g0 g : G} (ctx : Ctx g0 g) (h : Cv g) (f : Fault)
         rcases List.mem_append.mp hy with hy | hy
         · exact h.qv q' hq'' y hy hyr
         · simp only [List.mem_singleton] at hy; subst hy
-          have := Nat.le_trans (h.qle q' hq'') hs.le
-          have : q'.rev ≤ g.dealt := this
+          have := h.qle q' hq''
           simp only at hyr; omega
       · intro s hsm hv
         rw [pS] at hsm
@@ -1449,7 +1522,7 @@ theorem Cv.stepRetry {g0 g : G} (ctx : Ctx g0 g) (h : Cv g) (f : Fault)
       · intro k w0 hl0
         rw [pE, pS, pQ]
         rw [pW, lastW_append] at hl0
-        by_cases hkk : q.key = k
+        by_cases hkk : p.w.key = k
         · rw [if_pos hkk] at hl0
           simp only [Option.some.injEq] at hl0; subst hl0
           refine .inr (.inl ⟨_, List.mem_append_right _ (List.mem_singleton_self _), rfl, ?_⟩)
@@ -1465,11 +1538,14 @@ theorem Cv.stepRetry {g0 g : G} (ctx : Ctx g0 g) (h : Cv g) (f : Fault)
             rw [hq] at hq'
             rcases List.mem_cons.mp hq' with rfl | hq'
             · exfalso
-              obtain ⟨hk, _⟩ := h.qv q' hqm w0 (lastW_some hl0).1 hr'.symm
+              obtain ⟨hk, _⟩ := h.qv p.w hqm w0 (lastW_some hl0).1 hr'.symm
               exact hkne (hk.symm.trans (lastW_some hl0).2)
             · split
               · exact hq'
               · exact List.mem_cons_of_mem _ hq'
+      · intro p' hp'; exact (hppc p' hp').elim
+      · intro p' hp'; exact (hppc p' hp').elim
+      · intro p' hp'; exact (hppc p' hp').elim
     · -- not applied
       have ha' : ¬ applied r f = true := by rw [ha]; simp
       rw [if_neg ha'] at pW
@@ -1492,7 +1568,7 @@ theorem Cv.stepRetry {g0 g : G} (ctx : Ctx g0 g) (h : Cv g) (f : Fault)
         rcases List.mem_append.mp hsm with hsm | hsm
         · exact h.sv s hsm y hy hyr
         · simp only [List.mem_singleton] at hsm; subst hsm
-          have := hA.wle y hy; simp only at hyr; omega
+          exact absurd hyr (hwl y hy)
       · rw [pQ, pW]; intro x hx; exact h.qv x (hQsub x hx)
       · intro s hsm hv
         rw [pS] at hsm
@@ -1519,18 +1595,15 @@ theorem Cv.stepRetry {g0 g : G} (ctx : Ctx g0 g) (h : Cv g) (f : Fault)
             rcases List.mem_cons.mp hq' with rfl | hq'
             · -- the condition of the rewrite cannot fail while the head is the last write of its key
               exfalso
-              obtain ⟨hk, _⟩ := h.qv q' hqm w0 (lastW_some hl0).1 hr'.symm
-              have hkk : k = q'.key := (lastW_some hl0).2.symm.trans hk
+              obtain ⟨hk, _⟩ := h.qv p.w hqm w0 (lastW_some hl0).1 hr'.symm
+              have hkk : k = p.w.key := (lastW_some hl0).2.symm.trans hk
               subst hkk
-              obtain ⟨hget', hidx⟩ := read_last ctx h hb hqa hl0
-              rw [hget] at hget'
-              simp only [Option.some.injEq, Prod.mk.injEq] at hget'
-              have hfl := (isTomb_getD (h.wval w0 (lastW_some hl0).1)).1
-              rw [← hget'.1] at hfl
+              obtain ⟨_, hidx⟩ := read_last ctx h hb hqa hl0
+              have hfl := h.pv p hp w0 (lastW_some hl0).1 hr'.symm
               rw [← hr', ← flag_of_eq hfl] at hidx
-              have hcm := (commit_cas_put g.cfg.q g.store (idxKey q'.key)
-                (be8 (g.dealt + 1) ++ if isTomb val then [0] else [])
-                (be8 q'.rev ++ if isTomb val then [0] else []) (encode q'.key (g.dealt + 1)) val _).mpr ⟨hidx, rfl⟩
+              have hcm := (commit_cas_put g.cfg.q g.store (idxKey p.w.key)
+                (be8 p.rev ++ if isTomb p.val then [0] else [])
+                (be8 p.w.rev ++ if isTomb p.val then [0] else []) (encode p.w.key p.rev) p.val _).mpr ⟨hidx, rfl⟩
               have hnc := doCommit_ok_not_conflict (f := f) hcm
               rw [hdc] at hnc
               simp only [Bool.or_eq_true, beq_iff_eq] at hcond
@@ -1540,9 +1613,18 @@ theorem Cv.stepRetry {g0 g : G} (ctx : Ctx g0 g) (h : Cv g) (f : Fault)
                 exact hnc _ _ rfl
             · exact hq'
           · exact hq'
+      · intro p' hp'; exact (hppc p' hp').elim
+      · intro p' hp'; exact (hppc p' hp').elim
+      · intro p' hp'; exact (hppc p' hp').elim
 
 /-- requests the convergence theorem admits -/
 def ActOK (a : Action) : Prop := ∀ id kind, a = .begin id kind → KOK kind
+
+theorem stepRetryRead_dealt_le (g : G) : g.dealt ≤ (stepRetryRead g).dealt := by
+  apply stepRetryRead_cases (P := fun g' => g.dealt ≤ g'.dealt) <;> intros <;> simp
+
+theorem stepRetryCommit_dealt (g : G) (f : Fault) : (stepRetryCommit g f).dealt = g.dealt := by
+  apply stepRetryCommit_cases (P := fun g' => g'.dealt = g.dealt) <;> intros <;> simp
 
 theorem act_dealt_le {g0 g : G} (ctx : Ctx g0 g) (a : Action) : g.dealt ≤ (act g a).dealt := by
   obtain ⟨hs, _⟩ := ctx.finv
@@ -1568,21 +1650,20 @@ theorem act_dealt_le {g0 g : G} (ctx : Ctx g0 g) (a : Action) : g.dealt ≤ (act
     · exact Nat.le_refl _
     · exact Nat.le_max_left _ _
   | retry f =>
-    unfold KB.act; simp only []
-    apply stepRetry_cases' (P := fun g' => g.dealt ≤ g'.dealt)
-    · intro _; exact Nat.le_refl _
-    · intros; exact Nat.le_refl _
-    · intros; simp
+    exact Nat.le_trans (stepRetryRead_dealt_le g) (Nat.le_of_eq (stepRetryCommit_dealt _ f).symm)
+  | retryRead => exact stepRetryRead_dealt_le g
+  | retryCommit f => exact Nat.le_of_eq (stepRetryCommit_dealt g f).symm
 
-theorem Cv.act {g0 g : G} (ctx : Ctx g0 g) (h : Cv g) (a : Action) (ha : ActOK a)
-    (hb : (act g a).dealt < 2 ^ 64) : Cv (act g a) := by
+theorem Cv.act {g0 g : G} (h0 : C02.Init g0) (hs0 : g0.store = []) (hr : Reachable g0 g) (h : Cv g) (a : Action)
+    (ha : ActOK a) (hb : (act g a).dealt < 2 ^ 64) : Cv (act g a) := by
+  have ctx := Ctx.reachable h0 hs0 hr
   cases a with
   | begin id kind =>
     unfold KB.act; simp only []
     split
     · exact h
     · refine ⟨?_, h.salph, h.qalph, h.wval, h.sorted, h.skeys, h.sv, h.qv, h.svalid, h.suniq, h.qle, h.em,
-        h.emsorted, h.cover⟩
+        h.emsorted, h.cover, h.pq, h.pne, h.pv⟩
       intro c hc
       rcases List.mem_append.mp hc with hc | hc
       · exact h.kok c hc
@@ -1596,7 +1677,17 @@ theorem Cv.act {g0 g : G} (ctx : Ctx g0 g) (h : Cv g) (a : Action) (ha : ActOK a
       rw [hfind] at hb
       exact h.stepClient ctx (mem_client hfind).1 f hb
   | seq => exact h.stepSeq
-  | retry f => exact h.stepRetry ctx f hb
+  | retry f =>
+    have hb1 : (KB.stepRetryRead g).dealt < 2 ^ 64 := by
+      have : (KB.stepRetryCommit (KB.stepRetryRead g) f).dealt < 2 ^ 64 := hb
+      rwa [stepRetryCommit_dealt] at this
+    have ctx' := Ctx.reachable h0 hs0 (hr.step .retryRead)
+    exact (h.stepRetryRead ctx hb1).stepRetryCommit ctx' f hb1
+  | retryRead => exact h.stepRetryRead ctx hb
+  | retryCommit f =>
+    have : (KB.stepRetryCommit g f).dealt < 2 ^ 64 := hb
+    rw [stepRetryCommit_dealt] at this
+    exact h.stepRetryCommit ctx f this
 
 theorem Cv.run {g0 : G} (h0 : C02.Init g0) (hs : g0.store = []) (hem : g0.emitted = []) (sched : List Action)
     (hok : ∀ a ∈ sched, ActOK a) (hb : (run g0 sched).dealt < 2 ^ 64) : Cv (run g0 sched) := by
@@ -1611,7 +1702,7 @@ theorem Cv.run {g0 : G} (h0 : C02.Init g0) (hs : g0.store = []) (hem : g0.emitte
     have ctx := Ctx.reachable h0 hs hr
     refine ih (KB.act g a) (hr.step a) ?_ (fun b hb => hok b (List.mem_cons_of_mem _ hb))
     intro hb'
-    exact Cv.act ctx (hJ (Nat.lt_of_le_of_lt (act_dealt_le ctx a) hb')) a (hok a (List.mem_cons_self ..)) hb'
+    exact Cv.act h0 hs hr (hJ (Nat.lt_of_le_of_lt (act_dealt_le ctx a) hb')) a (hok a (List.mem_cons_self ..)) hb'
 
 /-- at quiescence the last applied write of every key is its last emitted event -/
 theorem Cv.converged {g0 g : G} (ctx : Ctx g0 g) (h : Cv g) (hb : g.dealt < 2 ^ 64) (hsl : g.slots = [])
